@@ -72,9 +72,9 @@ func c05Run(r *Run) {
 	r.curRule = "C05-FINALLY"
 	runsFinally := map[*types.Func]bool{} // every exit has passed the region exactly once
 	type exitRec struct {
-		pos  token.Pos
-		min  int
-		max  int
+		pos token.Pos
+		min int
+		max int
 	}
 	analyse := func(fd *ast.FuncDecl) (exits []exitRec, twice []token.Pos, recoverPos token.Pos) {
 		h := &Hooks{Info: info}
